@@ -18,6 +18,12 @@
 #include <AIToolbox/MDP/Algorithms/LinearProgramming.hpp>
 #include <AIToolbox/MDP/Algorithms/Utils/PolicyEvaluation.hpp>
 #include <AIToolbox/MDP/Policies/Policy.hpp>
+#include <AIToolbox/MDP/Policies/QGreedyPolicy.hpp>
+#include <AIToolbox/Seeder.hpp>
+#include <unistd.h>
+#include <poll.h>
+#include <signal.h>
+#include <sys/wait.h>
 
 using namespace verif;
 namespace M = AIToolbox::MDP;
@@ -135,10 +141,58 @@ static AIToolbox::Vector runPE(const Mod & mod, const char * rep, const Gen & G,
 }
 
 template <class Mod>
-static AIToolbox::Matrix2D runPI(const Mod & mod, const char * rep, const Gen & G, unsigned h, double tol) {
+static AIToolbox::Matrix2D runPIUnguarded(const Mod & mod, const char * rep, const Gen & G, unsigned h, double tol) {
     M::PolicyIteration pi(h, tol);
     auto q = pi(mod);
     Line l = head("pi", false, rep, G); l << h << tol << "|"; putMat(l, q); l.emit();
+    return q;
+}
+
+// PolicyIteration has no iteration bound.  On inputs where it may not return (see fixes/C01-3) the call runs in a forked child with a
+// wall-clock limit, so that non-termination becomes a protocol line (`| timeout`, a failing input) instead of a killed harness.
+template <class Mod>
+static bool runPIGuarded(const Mod & mod, const char * rep, const Gen & G, unsigned h, double tol, int limitMs, AIToolbox::Matrix2D & out, M::PolicyIteration * obj = nullptr) {
+    int fd[2]; if (pipe(fd) != 0) { out = runPIUnguarded(mod, rep, G, h, tol); return true; }
+    std::fflush(stdout);
+    const pid_t pid = fork();
+    if (pid < 0) { close(fd[0]); close(fd[1]); out = runPIUnguarded(mod, rep, G, h, tol); return true; }
+    const size_t n = G.S * G.A;
+    if (pid == 0) {
+        close(fd[0]);
+        M::PolicyIteration fresh(h, tol);
+        auto q = obj ? (*obj)(mod) : fresh(mod);          // `obj`: an existing solver object whose setters were used by the caller
+        std::vector<double> buf(n);
+        for (size_t s = 0; s < G.S; ++s) for (size_t a = 0; a < G.A; ++a) buf[s * G.A + a] = q(s, a);
+        ssize_t w = write(fd[1], buf.data(), n * sizeof(double)); (void)w;
+        _exit(0);
+    }
+    close(fd[1]);
+    std::vector<double> buf(n); size_t got = 0; bool ok = true;
+    while (got < n * sizeof(double)) {
+        struct pollfd pf{fd[0], POLLIN, 0};
+        int r = poll(&pf, 1, limitMs);
+        if (r <= 0) { ok = false; break; }
+        ssize_t k = read(fd[0], (char *)buf.data() + got, n * sizeof(double) - got);
+        if (k <= 0) { ok = false; break; }
+        got += (size_t)k;
+    }
+    close(fd[0]);
+    if (!ok) kill(pid, SIGKILL);
+    int st; waitpid(pid, &st, 0);
+    Line l = head("pi", false, rep, G); l << h << tol << "|";
+    if (!ok) { l << "timeout"; l.emit(); std::printf("#stat pi_timeout 1\n"); return false; }
+    out.resize(G.S, G.A);
+    for (size_t s = 0; s < G.S; ++s) for (size_t a = 0; a < G.A; ++a) out(s, a) = buf[s * G.A + a];
+    putMat(l, out); l.emit();
+    return true;
+}
+
+// every PolicyIteration call of the harness goes through the guard (10 s unless stated): `piOK` tells whether it returned
+static bool piOK = true;
+template <class Mod>
+static AIToolbox::Matrix2D runPI(const Mod & mod, const char * rep, const Gen & G, unsigned h, double tol) {
+    AIToolbox::Matrix2D q; piOK = runPIGuarded(mod, rep, G, h, tol, 10000, q);
+    if (!piOK) { q.resize(G.S, G.A); q.setZero(); }
     return q;
 }
 
@@ -253,8 +307,9 @@ static void runAll(Rng & rng, const Gen & G, const std::string & tier, bool forc
             auto [var, vf, q] = vi(mod);
             { Line l = head("vi", false, rep, G); l << 100000u << tolVI << false << "|" << var; putVec(l, vf.values); l.nats(vf.actions); putMat(l, q); l.emit(); }
             auto qp = runPI(mod, rep, G, 100000, tolPI);
+            const bool piReturned = piOK && qp.allFinite();
             auto lr = runLP(mod, rep, G);
-            if (lr.ok) {
+            if (lr.ok && piReturned) {
                 Line l = head("agree", false, rep, G); l << tolVI << tolPI << lr.prec << "|";
                 putVec(l, vf.values); putActs(l, vf.actions); putMat(l, qp); putVec(l, lr.vf.values); putMat(l, lr.q); l.emit();
                 vlp.push_back(lr.vf.values);
@@ -285,8 +340,9 @@ static void runAll(Rng & rng, const Gen & G, const std::string & tier, bool forc
         auto [var, vf, q] = vi(th);
         { Line l = head("vi", false, "thompson", G2); l << 100000u << tolVI << false << "|" << var; putVec(l, vf.values); l.nats(vf.actions); putMat(l, q); l.emit(); }
         auto qp = runPI(th, "thompson", G2, 100000, tolPI);
+        const bool piReturned = piOK && qp.allFinite();
         auto lr = runLP(th, "thompson", G2);
-        if (lr.ok) { Line l = head("agree", false, "thompson", G2); l << tolVI << tolPI << lr.prec << "|";
+        if (lr.ok && piReturned) { Line l = head("agree", false, "thompson", G2); l << tolVI << tolPI << lr.prec << "|";
             putVec(l, vf.values); putActs(l, vf.actions); putMat(l, qp); putVec(l, lr.vf.values); putMat(l, lr.q); l.emit(); }
         std::printf("#stat thompson 1\n");
     }
@@ -296,6 +352,249 @@ static void runAll(Rng & rng, const Gen & G, const std::string & tier, bool forc
         runPI(dense, "dense", G, h, 0.0);
         runPI(generic, "generic", G, h, 0.0);
     }
+}
+
+
+// ---- (6) solver objects reused across calls and models: v1_ / vParameter_ are the state "carried between calls" ------------
+// Every emitted line is self-contained (the driver checks it like a fresh call), so any leak of state from an earlier call
+// (moved-from v1_, a start vector of another size, a stale tolerance/horizon) shows up as a failed clause on that line.
+template <class Mod>
+static void runReuse(Rng & rng, const Mod & mod, const char * rep, const Gen & G) {
+    const size_t S = G.S, A = G.A;
+    M::Model other(S + 1 + rng.below(2), A, G.g);                 // a model of another size solved by the same object in between
+    unsigned h1 = (unsigned)rng.range(1, 5), h2 = (unsigned)rng.range(0, 5);
+    M::ValueIteration vi(h1, 0.0);
+    // the three-argument constructors (start vector given at construction)
+    {
+        Warm w0; w0.on = true; w0.vf.values.resize(S); w0.vf.actions.assign(S, 0);
+        for (size_t s = 0; s < S; ++s) w0.vf.values[s] = 0.25 * (double)rng.range(-8, 8);
+        M::ValueIteration vi3(h1, 0.0, w0.vf);
+        auto [var, vf, q] = vi3(mod);
+        Line l = head("vi", G.dyadic, rep, G); l << h1 << 0.0 << true << (size_t)S; putVec(l, w0.vf.values); l.nats(w0.vf.actions);
+        l << "|" << var; putVec(l, vf.values); l.nats(vf.actions); putMat(l, q); l.emit();
+    }
+    auto emitVI = [&](unsigned h, double tol, const Warm & w, const std::tuple<double, M::ValueFunction, M::QFunction> & out) {
+        const auto & [var, vf, q] = out;
+        Line l = head("vi", G.dyadic, rep, G); l << h << tol << w.on;
+        if (w.on) { l << (size_t)w.vf.values.size(); putVec(l, w.vf.values); l.nats(w.vf.actions); }
+        l << "|" << var; putVec(l, vf.values); l.nats(vf.actions); putMat(l, q); l.emit();
+    };
+    Warm none;
+    emitVI(h1, 0.0, none, vi(mod));                                // first call
+    (void)vi(other);                                               // different S: start vector of the previous size must not leak
+    emitVI(h1, 0.0, none, vi(mod));                                // same object, same answer
+    // setters between calls: horizon, then a start vector, then removing it again (empty = default zeros)
+    vi.setHorizon(h2);
+    emitVI(h2, 0.0, none, vi(mod));
+    Warm w; w.on = true; w.vf.values.resize(S); w.vf.actions.assign(S, 0);
+    for (size_t s = 0; s < S; ++s) w.vf.values[s] = 0.5 * (double)rng.range(-8, 8);
+    vi.setValueFunction(w.vf);
+    const bool getterOK = vi.getHorizon() == h2 && vi.getTolerance() == 0.0 && vi.getValueFunction().values.size() == (long)S;
+    emitVI(h2, 0.0, w, vi(mod));
+    (void)vi(other);                                               // the start has S entries, `other` has more: ignored there
+    emitVI(h2, 0.0, w, vi(mod));                                   // ... and still used here
+    vi.setValueFunction(M::ValueFunction{});                       // back to the default start
+    emitVI(h2, 0.0, none, vi(mod));
+    vi.setTolerance(0.25);
+    emitVI(h2, 0.25, none, vi(mod));
+    std::printf("#stat reuse_vi_calls 9\n#stat reuse_getters_%s 1\n", getterOK ? "ok" : "BAD");
+    if (!getterOK) { Line l; l << "C01" << "getter" << rep << "ValueIteration"; l.emit(); }
+    // negative tolerance is rejected (documented), and the object keeps its previous tolerance
+    bool threw = false; try { vi.setTolerance(-1.0); } catch (const std::exception &) { threw = true; }
+    { Line l; l << "C01" << "settol" << "ValueIteration" << threw << vi.getTolerance() << 0.25; l.emit(); }
+    // PolicyEvaluation object: two calls with setValues in between (exactly what PolicyIteration does)
+    AIToolbox::Matrix2D pol(S, A);
+    for (size_t s = 0; s < S; ++s) { std::vector<unsigned> c(A, 0); for (int k = 0; k < 4; ++k) c[rng.below(A)] += 1; for (size_t a = 0; a < A; ++a) pol(s, a) = 0.25 * c[a]; }
+    M::Policy policy(pol);
+    unsigned hp = (unsigned)rng.range(1, 3);
+    M::PolicyEvaluation<Mod> pe(mod, hp, 0.0);
+    auto emitPE = [&](unsigned h, const AIToolbox::Vector * warm, const std::tuple<double, M::Values, M::QFunction> & out) {
+        const auto & [var, v, q] = out;
+        Line l = head("pe", G.dyadic, rep, G); l << h << 0.0 << (warm != nullptr);
+        if (warm) { l << (size_t)warm->size(); putVec(l, *warm); }
+        putMat(l, pol); l << "|" << var; putVec(l, v); putMat(l, q); l.emit();
+    };
+    {
+        AIToolbox::Vector w0(S); for (size_t s = 0; s < S; ++s) w0[s] = 0.25 * (double)rng.range(-8, 8);
+        M::PolicyEvaluation<Mod> pe4(mod, hp, 0.0, w0);
+        emitPE(hp, &w0, pe4(policy));
+    }
+    auto o1 = pe(policy); emitPE(hp, nullptr, o1);
+    AIToolbox::Vector carried = std::get<1>(o1);
+    pe.setValues(carried);                                          // warm start from the previous result
+    auto o2 = pe(policy); emitPE(hp, &carried, o2);
+    auto o3 = pe(policy); emitPE(hp, &carried, o3);                 // the parameter is not consumed by a call
+    pe.setValues(AIToolbox::Vector(S + 1));                         // wrong size: ignored, zeros
+    AIToolbox::Vector bad(S + 1); bad.setOnes();
+    pe.setValues(bad);
+    auto o4 = pe(policy); emitPE(hp, &bad, o4);
+    bool threwPE = false; try { pe.setTolerance(-0.5); } catch (const std::exception &) { threwPE = true; }
+    { Line l; l << "C01" << "settol" << "PolicyEvaluation" << threwPE << pe.getTolerance() << 0.0; l.emit(); }
+    std::printf("#stat reuse_pe_calls 5\n");
+    // PolicyIteration object: constructed with other parameters, then set; a rejected setter in between
+    {
+        M::PolicyIteration pi(3, 0.5);
+        pi.setHorizon(100000); pi.setTolerance(1e-3);
+        bool threwPI = false; try { pi.setTolerance(-2.0); } catch (const std::exception &) { threwPI = true; }
+        { Line l; l << "C01" << "settol" << "PolicyIteration" << threwPI << pi.getTolerance() << 1e-3; l.emit(); }
+        AIToolbox::Matrix2D q;
+        runPIGuarded(mod, rep, G, pi.getHorizon(), pi.getTolerance(), 10000, q, &pi);
+        pi.setTolerance(1e-2);
+        runPIGuarded(mod, rep, G, 100000u, 1e-2, 10000, q, &pi);
+        std::printf("#stat reuse_pi_calls 2\n");
+    }
+}
+
+// ---- (7) QGreedyPolicy::getPolicy on structured Q rows (what PolicyIteration's stop test and evaluations consume) -------------
+static void runGreedyTable(Rng & rng, int fixed) {
+    size_t S = (size_t)rng.range(1, 4), A = (size_t)rng.range(1, 5);
+    if (fixed >= 0) { S = 1; A = 3; }
+    AIToolbox::Matrix2D q(S, A);
+    for (size_t s = 0; s < S; ++s) {
+        const int e = (int)rng.range(-3, 10);
+        double base = std::pow(10.0, e) * (1.0 + 0.37 * (double)rng.below(5)) * (rng.coin() ? 1.0 : -1.0);
+        if (rng.coin(1, 10)) base = 0.0;
+        if (fixed >= 0) base = fixed == 3 ? 1e8 : fixed == 1 ? 0.0 : 1.0;
+        int style = fixed >= 0 ? fixed : (int)rng.below(8);
+        const double relgap = std::fabs(base) * 1e-11;
+        std::printf("#stat gp_style%d 1\n#stat gp_mag_e%d 1\n", style, base == 0.0 ? -99 : e);
+        for (size_t a = 0; a < A; ++a) {
+            double v;
+            switch (style) {
+                case 0: v = base; break;                                                    // exact ties everywhere
+                case 1: v = base + (double)a * 0.9e-6; break;                               // ascending chain at the absolute threshold
+                case 2: v = base - (double)a * 0.9e-6; break;                               // descending chain
+                case 3: v = base + (double)a * 0.9 * relgap; break;                         // ascending chain at the relative threshold
+                case 4: v = base + ((a % 2) ? 1.0 : 0.0) * 0.5 * (relgap > 2e-6 ? relgap : 0.4e-6); break;   // two-level near tie
+                case 5: v = base + ((a % 2) ? 1.0 : 0.0) * (relgap > 1e-6 ? 3.0 * relgap : 3e-6); break;     // clearly separated two levels
+                case 6: v = base * (1.0 + 0.01 * (double)rng.range(-5, 5)); break;          // distinct
+                default: v = (a == rng.below(A) ? (0.1 + 0.2) : 0.3) * base; break;         // rounding-level tie
+            }
+            q(s, a) = v;
+        }
+        if (fixed < 0 && rng.coin(1, 3)) { // shuffle the row so the chain is not always ascending by index
+            for (size_t a = A; a > 1; --a) { size_t j = rng.below(a); std::swap(q(s, a - 1), q(s, j)); }
+        }
+    }
+    M::QGreedyPolicy p(q);
+    auto m = p.getPolicy();
+    Line l; l << "C01" << "gp" << S << A; putMat(l, q); l << "|"; putMat(l, m);
+    l.emit();
+    // bellmanOperator(q) on the same table: the out-of-place form of the backup (first maximum per row)
+    auto vf = M::bellmanOperator(q);
+    Line l2; l2 << "C01" << "bop" << S << A; putMat(l2, q); l2 << "|"; l2 << (size_t)vf.values.size(); putVec(l2, vf.values); l2.nats(vf.actions); l2.emit();
+}
+
+// ---- (8) large reward scales with near-tied optimal actions -----------------------------------------------------------------
+// |V| from 1e5 to 1e10; in every state two or three actions share a transition row and have rewards that differ at rounding level
+// ((0.1+0.2)c vs 0.3c), by a gap between equalToleranceSmall and equalToleranceGeneral*|Q| (c vs c+5e-5 at c=2.5e7), or form a
+// chain a~b~c with a!~c.  The other actions are clearly worse.  Solved by VI, PI, LP on dense, sparse and query-only models.
+static Gen genBig(Rng & rng, int fixed, int & tieStyle, bool thorough) {
+    Gen G; G.dyadic = false; G.den = 8;
+    G.S = (size_t)rng.range(1, thorough ? 9 : 5); G.A = (size_t)rng.range(2, thorough ? 6 : 4);
+    static const double gs[] = {0.5, 0.75, 0.9, 0.95, 0.25};
+    G.g = gs[rng.below(5)];
+    int e = (int)rng.range(5, 10);
+    double c = std::pow(10.0, e) * (1.0 - G.g) * (rng.coin() ? 1.0 : 2.5);
+    tieStyle = (int)rng.below(4);        // 0 rounding-level, 1 gap in (tolSmall, tolGeneral*|Q|), 2 chain, 3 exact tie
+    int signStyle = (int)rng.below(3);   // 0 rewards, 1 costs, 2 mixed by state
+    if (fixed == 0) { G.S = 1; G.A = 3; G.g = 0.9; c = 1e7; tieStyle = 2; signStyle = 0; }          // chain witness (PI diverges)
+    if (fixed == 1) { G.S = 2; G.A = 2; G.g = 0.9; c = 2.5e7; tieStyle = 1; signStyle = 1; }        // c vs c+5e-5 at 2.5e7 (costs)
+    if (fixed == 2) { G.S = 3; G.A = 3; G.g = 0.9; c = 2.5e7; tieStyle = 0; signStyle = 2; }        // (0.1+0.2)c vs 0.3c
+    if (fixed == 3) { G.S = 4; G.A = 2; G.g = 0.9; c = 8e8; tieStyle = 3; signStyle = 0; }          // positive values near 8e9 (LP)
+    if (tieStyle == 2 && G.A < 3) G.A = 3;
+    const double vmag = c / (1.0 - G.g);
+    G.t.assign(G.S, std::vector<std::vector<double>>(G.A, std::vector<double>(G.S, 0.0))); G.r = G.t;
+    for (size_t s = 0; s < G.S; ++s) {
+        const double sgn = signStyle == 0 ? 1.0 : signStyle == 1 ? -1.0 : ((s % 2) ? -1.0 : 1.0);
+        static const double ks[] = {1.0, 1.25, 0.75, 1.5, 0.5};
+        const double k = fixed >= 0 ? 1.0 : ks[rng.below(5)];
+        // the tied actions: a contiguous ascending block so that chains are ascending by index
+        size_t nt = tieStyle == 2 ? 3 : (G.A >= 3 && rng.coin(1, 3) ? 3 : 2);
+        size_t first = rng.below(G.A - nt + 1);
+        std::vector<unsigned> rowT(G.S, 0), rowO(G.S, 0);
+        for (unsigned i = 0; i < 8; ++i) { rowT[rng.below(G.S)] += 1; rowO[rng.below(G.S)] += 1; }
+        if (rng.coin(1, 4)) { std::fill(rowT.begin(), rowT.end(), 0u); rowT[s] = 4; rowT[rng.below(G.S)] += 4; }   // stochastic self-loop
+        for (size_t a = 0; a < G.A; ++a) {
+            const bool tied = a >= first && a < first + nt;
+            const size_t j = a - first;
+            double r;
+            if (!tied) r = sgn * k * c - (0.1 + 0.05 * (double)rng.below(4)) * c;          // clearly worse
+            else switch (tieStyle) {
+                case 0: r = sgn * k * ((j % 2) ? 0.3 * c : (0.1 + 0.2) * c) / 0.3; break;
+                case 1: r = sgn * k * c + (double)j * (fixed == 1 ? 5e-5 : std::max(2e-6, 0.2 * 1e-11 * vmag * k)); break;
+                case 2: r = sgn * k * c + (double)j * std::max(0.9e-6, 0.9 * 1e-11 * vmag * k * (signStyle == 0 ? 1.0 : 0.5)); break;
+                default: r = sgn * k * c; break;
+            }
+            for (size_t s1 = 0; s1 < G.S; ++s1) { G.t[s][a][s1] = 0.125 * (double)(tied ? rowT[s1] : rowO[s1]); G.r[s][a][s1] = r; }
+        }
+    }
+    std::printf("#stat big 1\n#stat big_vmag_e%d 1\n#stat big_tie%d 1\n#stat big_sign%d 1\n#stat big_S%zu 1\n", e, tieStyle, signStyle, G.S);
+    return G;
+}
+
+static void runBig(Rng & rng, int fixed, bool thorough = false) {
+    int tieStyle = 0;
+    Gen G = genBig(rng, fixed, tieStyle, thorough);
+    const size_t S = G.S, A = G.A;
+    M::Model dense(S, A, G.t, G.r, G.g);
+    M::SparseModel sparse(S, A, G.t, G.r, G.g);
+    GenericModel generic{S, A, G.g, &G.t, &G.r};
+    static const double tols[] = {1e-3, 1e-4, 1e-2};
+    const double tolVI = tols[rng.below(3)], tolPI = fixed == 0 ? 1e-4 : tols[rng.below(3)];
+    Warm none;
+    unsigned h = (unsigned)rng.range(1, 6);
+    std::vector<AIToolbox::Vector> dp, vvi, vlp;
+    auto doRep = [&](const auto & mod, const char * rep) {
+        dp.push_back(runVI(mod, rep, G, false, h, 0.0, none));
+        M::ValueIteration vi(1000000, tolVI);
+        auto [var, vf, q] = vi(mod);
+        { Line l = head("vi", false, rep, G); l << 1000000u << tolVI << false << "|" << var; putVec(l, vf.values); l.nats(vf.actions); putMat(l, q); l.emit(); }
+        AIToolbox::Matrix2D qp;
+        const bool piOK = runPIGuarded(mod, rep, G, 20000, tolPI, 2500, qp);
+        auto lr = runLP(mod, rep, G);
+        if (lr.ok && piOK && qp.allFinite()) {
+            Line l = head("agree", false, rep, G); l << tolVI << tolPI << lr.prec << "|";
+            putVec(l, vf.values); putActs(l, vf.actions); putMat(l, qp); putVec(l, lr.vf.values); putMat(l, lr.q); l.emit();
+        }
+        if (lr.ok) vlp.push_back(lr.vf.values);
+        vvi.push_back(vf.values);
+    };
+    doRep(dense, "dense"); doRep(sparse, "sparse"); doRep(generic, "generic");
+    emitXrep("vi_dp_big", false, G, dp);
+    emitXrep("vi_tol_big", false, G, vvi);
+    if (vlp.size() == vvi.size()) emitXrep("lp_big", false, G, vlp);
+}
+
+// ---- (9) an ordinary small MDP on which PolicyIteration returns NaN (finding C01-3 at the ABSOLUTE threshold): S=2, A=4, gamma=3/4, rewards 0 / -0.75,
+// V* = 0 with several equally good actions.  While PI converges all Q(s,.) approach 0 and pass through a chain of gaps around 1e-6: round 2 meets the row
+// [-2.10749e-3, -2.10657e-3, -2.10696e-3, -2.10624e-3] -> getPolicy = [0,1,1,1] (weight 3), the evaluation diverges to -inf/NaN.
+// (Found by the random stream, quick seed 4 case 98, on a ThompsonModel sample; the tables below are that sample, bit for bit.)
+static void runSmallChainWitness(Rng & rng) {
+    Gen G; G.S = 2; G.A = 4; G.g = std::ldexp(3.0, -2); G.dyadic = false;
+    G.t = {{{std::ldexp(8486653175586151.0, -53), std::ldexp(1041092158309683.0, -54)}, {std::ldexp(4431706994406191.0, -52), std::ldexp(575141063714441.0, -55)}, {std::ldexp(8702890540251835.0, -53), std::ldexp(4868939431826513.0, -57)}, {std::ldexp(8995913040193113.0, -53), std::ldexp(11286214547879.0, -53)}},
+            {{std::ldexp(7640827666289283.0, -56), std::ldexp(8052095796454831.0, -53)}, {std::ldexp(2649299807161345.0, -52), std::ldexp(3708599640418301.0, -53)}, {std::ldexp(6781951722811997.0, -56), std::ldexp(2039863822347373.0, -51)}, {std::ldexp(2324508030074153.0, -52), std::ldexp(4358183194592685.0, -53)}}};
+    G.r = {{{std::ldexp(0.0, 0), std::ldexp(0.0, 0)}, {std::ldexp(0.0, 0), std::ldexp(0.0, 0)}, {std::ldexp(0.0, 0), std::ldexp(0.0, 0)}, {std::ldexp(0.0, 0), std::ldexp(0.0, 0)}},
+            {{std::ldexp(0.0, 0), std::ldexp(0.0, 0)}, {std::ldexp(0.0, 0), std::ldexp(0.0, 0)}, {std::ldexp(-3.0, -2), std::ldexp(-3.0, -2)}, {std::ldexp(0.0, 0), std::ldexp(0.0, 0)}}};
+    GenericModel generic{G.S, G.A, G.g, &G.t, &G.r};
+    // the rows are a posterior sample: normalised to rounding, which MDP::Model's constructor accepts
+    M::Model dense(G.S, G.A, G.t, G.r, G.g);
+    M::SparseModel sparse(G.S, G.A, G.t, G.r, G.g);
+    Warm none; (void)rng;
+    auto one = [&](const auto & mod, const char * rep) {
+        M::ValueIteration vi(100000, 1e-3);
+        auto [var, vf, q] = vi(mod);
+        { Line l = head("vi", false, rep, G); l << 100000u << 1e-3 << false << "|" << var; putVec(l, vf.values); l.nats(vf.actions); putMat(l, q); l.emit(); }
+        auto qp = runPI(mod, rep, G, 100000, 1e-3);
+        const bool piReturned = piOK;
+        auto lr = runLP(mod, rep, G);
+        if (lr.ok && piReturned && qp.allFinite()) {
+            Line l = head("agree", false, rep, G); l << 1e-3 << 1e-3 << lr.prec << "|";
+            putVec(l, vf.values); putActs(l, vf.actions); putMat(l, qp); putVec(l, lr.vf.values); putMat(l, lr.q); l.emit();
+        }
+    };
+    one(dense, "dense"); one(sparse, "sparse"); one(generic, "generic");
+    std::printf("#stat small_chain_witness 1\n");
 }
 
 long verif::verif_ncases(const std::string & tier) { return tier == "thorough" ? 800 : 160; }
@@ -321,10 +620,22 @@ static Gen fixedCase(long idx) {
 }
 
 void verif::verif_case(Rng & rng, long idx, const std::string & tier) {
+    AIToolbox::Seeder::setRootSeed((unsigned)rng.next());     // ThompsonModel & co. draw from the library's global seeder: make every case replayable
     if (idx < 3) { Gen G = fixedCase(idx); runAll(rng, G, tier, idx == 2); return; }
+    if (idx < 7) { runBig(rng, (int)idx - 3); return; }                       // fixed large-scale near-tie witnesses
+    if (idx < 10) { runGreedyTable(rng, idx == 7 ? 1 : idx == 8 ? 3 : 2); return; }   // fixed greedy rows: chains at both thresholds
+    if (idx == 10) { runSmallChainWitness(rng); return; }
+    if (idx % 8 == 5) { runBig(rng, -1, tier == "thorough"); for (int k = 0; k < 6; ++k) runGreedyTable(rng, -1); return; }
     const bool ugly = (idx % 4 == 3);
     Gen G = genMDP(rng, tier, ugly);
     runAll(rng, G, tier);
+    if (G.dyadic && idx % 2 == 0) {
+        M::Model dense(G.S, G.A, G.t, G.r, G.g);
+        M::SparseModel sparse(G.S, G.A, G.t, G.r, G.g);
+        GenericModel generic{G.S, G.A, G.g, &G.t, &G.r};
+        runReuse(rng, dense, "dense", G); runReuse(rng, generic, "generic", G);
+        if (idx % 4 == 0) runReuse(rng, sparse, "sparse", G);
+    }
 }
 
 VERIF_MAIN
